@@ -297,9 +297,9 @@ func (e *Enc) copyOp(fr *frame, st *State, dst, src Value, prefix string) Value 
 
 func (e *Enc) invoke(fr *frame, st *State, c *ssa.CallCommon, recv Value, args []Value, prefix string, pos token.Pos) Value {
 	rt := resultType(c)
-	e.oblige(st, "nopanic", "nil-interface-call "+c.Method.Name(), "(not (= (itag "+recv.term+") 0))", pos)
 	key := ifaceMethodKey(c.Method)
 	e.callsiteChecks(fr, st, c.Method.Name(), nil, append([]Value{recv}, args...), pos)
+	e.oblige(st, "nopanic", "nil-interface-call "+c.Method.Name(), "(not (= (itag "+recv.term+") 0))", pos)
 	if m, ok := trustedIfaceModels[key]; ok {
 		e.v.useTrusted(key)
 		return m(e, fr, st, recv, args, prefix, rt)
@@ -722,7 +722,7 @@ func (e *Enc) callsiteChecks(fr *frame, st *State, callee string, fn *ssa.Functi
 		return
 	}
 	for _, cs := range con.CallSites {
-		if cs.Callee != callee && !(fn != nil && strings.HasSuffix(funcDisplayName(fn), cs.Callee)) {
+		if cs.Callee != callee && !(fn != nil && (funcDisplayName(fn) == cs.Callee || strings.HasSuffix(funcDisplayName(fn), "."+cs.Callee))) {
 			continue
 		}
 		env := e.frameEnv(fr, st)
@@ -735,6 +735,11 @@ func (e *Enc) callsiteChecks(fr *frame, st *State, callee string, fn *ssa.Functi
 		if cs.UseLemma {
 			t, _ := e.lemmaInstance(env, cs.Clause)
 			st.assume(t)
+			continue
+		}
+		if cs.Assume {
+			st.assume(e.evalClauseAssume(env, cs.Clause))
+			e.v.useTrusted("assume:" + con.Key + ":" + cs.Clause.Label + ": " + cs.Clause.Src)
 			continue
 		}
 		e.obligeClauseNamed(env, st, "callsite", cs.Callee+":"+cs.Clause.Label, cs.Clause, pos)
@@ -786,7 +791,12 @@ func (e *Enc) frameEnv(fr *frame, st *State) *SpecEnv {
 	}
 	ambiguous := map[string]bool{}
 	if at != nil {
+		var defNames []string
 		for name := range fr.namedDefs {
+			defNames = append(defNames, name)
+		}
+		sort.Strings(defNames)
+		for _, name := range defNames {
 			if _, shadow := vars[name]; shadow {
 				continue
 			}
@@ -956,7 +966,13 @@ func (e *Enc) lenientLocals(fr *frame, st *State, env *SpecEnv) {
 		}
 		fr.lenient = map[string]Value{}
 	}
-	for name, t := range fr.localTypes {
+	var ltNames []string
+	for name := range fr.localTypes {
+		ltNames = append(ltNames, name)
+	}
+	sort.Strings(ltNames)
+	for _, name := range ltNames {
+		t := fr.localTypes[name]
 		if _, ok := env.vars[name]; ok {
 			continue
 		}
